@@ -30,7 +30,8 @@ Definition pend_of (l : loc) : option hop :=
 (* history events of one step of thread t from l to l':
    the K_INVOKE step of a holder method is its invocation; the step that releases the mutex appends the
    entry to the ghost log (linearization point) and emits K_RET r / K_CATCH (response), in this order;
-   Drop / ReadObj are not holder methods and emit nothing *)
+   Drop / ReadObj (and AddFrom on an empty slot) are client code and emit nothing; AddFrom n s ty on a
+   non-empty slot is the invocation of addObject(n, that pointer[, ty]) *)
 Definition hevs (t : nat) (l l' : loc) : list hevT :=
   match at_ l with
   | Idle => match pend_of l' with Some oa => [HInv t oa] | None => [] end
@@ -205,12 +206,12 @@ Proof.
   exact (Lin.lin_points_linearizable hop hret mstate (happly th) st0 _ L Hs Hl).
 Qed.
 
-(* the history events are the observable ones: an Inv is emitted exactly by a step that emits K_INVOKE of a
-   holder method, Lin;Res exactly by the step that emits K_UNLOCK with K_RET r / K_CATCH and appends the log *)
+(* the history events are the observable ones: an Inv is emitted exactly by a step that emits K_INVOKE of the
+   operation at the head of the program (a holder method, or the client's addObject of a held pointer), Lin;Res exactly by the step that emits K_UNLOCK with K_RET r / K_CATCH and appends the log *)
 Lemma hevs_observable t c g l g' l' es : tstep t c g l = Some (g', l', es) ->
   match hevs t l l' with
   | [] => log g' = log g
-  | [Lin.Inv _ _ u oa] => u = t /\ log g' = log g /\ In (E K_INVOKE 0 (opcode (fst oa))) es
+  | [Lin.Inv _ _ u oa] => u = t /\ log g' = log g /\ exists o0 r0, prog l = o0 :: r0 /\ In (E K_INVOKE 0 (opcode o0)) es
   | [Lin.Lin _ _ u; Lin.Res _ _ v r] =>
     u = t /\ v = t /\ In (E K_UNLOCK O_MTX 0) es /\
     match r with
@@ -221,7 +222,8 @@ Lemma hevs_observable t c g l g' l' es : tstep t c g l = Some (g', l', es) ->
   end.
 Proof.
   intros Hs. destruct l as [pr p sl hd].
-  step_cases Hs; unfold hevs, pend_of; cbn [at_ log fst opcode]; auto 6.
+  step_cases Hs; unfold hevs, pend_of; cbn [at_ log fst prog]; auto 6.
+  all: try (repeat split; auto; do 2 eexists; split; [reflexivity|left; reflexivity]; fail).
   all: try (repeat split; cbn; auto; eauto; fail).
   all: repeat split; auto; try (left; reflexivity); try (right; apply in_or_app; right; left; reflexivity); eauto.
 Qed.
